@@ -98,10 +98,11 @@ theorem inv_remove {s s' : State} (hi : Inv s) {id : Nat} {d : Proposal}
     (hL : ∀ p, dLock p = - oblH p d (alookup id s.states))
     (hcc : dcc = - d.clientColl) (hpc : dpc = - d.providerColl)
     (hfee : dfee = - remFee d (alookup id s.states))
-    (hle : ∀ p, dLock p ≤ dEsc p) : Inv s' := by
+    (hle : ∀ p, dLock p ≤ dEsc p)
+    {c : Closed} (hclosed : s'.closed = s.closed ++ [(id, c)]) (hc : ClosedOk c) : Inv s' := by
   have hs : ∀ k, k ≠ id → alookup k (aerase id s.states) = alookup k s.states :=
     fun k hk => alookup_aerase_other _ _ _ hk
-  refine ⟨⟨?_, ?_, ?_, ?_, ?_⟩, ⟨?_, ?_, ?_, ?_, ?_⟩, ⟨?_, ?_⟩⟩
+  refine ⟨⟨?_, ?_, ?_, ?_, ?_⟩, ⟨?_, ?_, ?_, ?_, ?_⟩, ⟨?_, ?_, ?_⟩⟩
   · rw [hepoch]; exact hi.wf.epoch0
   · rw [hprops]; exact ND_aerase hi.wf.nd _
   · intro k d' h; rw [hprops] at h; rw [hnext]
@@ -129,6 +130,11 @@ theorem inv_remove {s s' : State} (hi : Inv s) {id : Nat} {d : Proposal}
     by_cases hk : k = id
     · simp [hk]
     · simp [hk]; rw [hprops, alookup_aerase_other _ _ _ hk] at h; exact hi.ledg.dead k h
+  · intro k c' hm
+    rw [hclosed] at hm
+    rcases List.mem_append.mp hm with hm | hm
+    · exact hi.ledg.closed k c' hm
+    · simp at hm; rw [hm.2]; exact hc
 
 /-- a continuing settlement of deal `id` at the current epoch: `P` moves from the client's locked
     escrow to the provider, the settlement mark moves to now -/
@@ -141,7 +147,7 @@ theorem inv_pay {s s' : State} (hi : Inv s) {id : Nat} {d : Proposal} {st : Deal
     {P : Int} (hP : P = d.price * (max d.startE s.epoch - max d.startE st.lastUpdated)) (hP0 : 0 ≤ P)
     (hpaid : ∀ j, bal s'.paid j = bal s.paid j + ind j id P)
     (m : Moves s s' (fun j => - ind j d.client P + ind j d.provider P) (fun j => - ind j d.client P)
-      0 (-P) 0) : Inv s' := by
+      0 (-P) 0) (hclosed : s'.closed = s.closed) : Inv s' := by
   have hs : ∀ k, k ≠ id → alookup k (aset id { st with lastUpdated := s.epoch } s.states)
       = alookup k s.states := fun k hk => alookup_aset_other _ _ _ _ hk
   have hnew : alookup id (aset id { st with lastUpdated := s.epoch } s.states)
@@ -150,7 +156,7 @@ theorem inv_pay {s s' : State} (hi : Inv s) {id : Nat} {d : Proposal} {st : Deal
     simp only [remFee, luTo]
     rw [hP, ← Int.mul_sub]
     congr 1; omega
-  refine ⟨⟨?_, ?_, ?_, ?_, ?_⟩, ⟨?_, ?_, ?_, ?_, ?_⟩, ⟨?_, ?_⟩⟩
+  refine ⟨⟨?_, ?_, ?_, ?_, ?_⟩, ⟨?_, ?_, ?_, ?_, ?_⟩, ⟨?_, ?_, by rw [hclosed]; exact hi.ledg.closed⟩⟩
   · rw [hepoch]; exact hi.wf.epoch0
   · rw [hprops]; exact hi.wf.nd
   · intro k d' h; rw [hprops] at h; rw [hnext]; exact hi.wf.fresh k d' h
@@ -195,12 +201,12 @@ theorem inv_pay {s s' : State} (hi : Inv s) {id : Nat} {d : Proposal} {st : Deal
 theorem inv_escrow_only {s : State} (hi : Inv s) (esc : Table)
     (h : ∀ p, bal s.locked p ≤ bal esc p) : Inv { s with escrow := esc } :=
   ⟨⟨hi.wf.epoch0, hi.wf.nd, hi.wf.fresh, hi.wf.good, hi.wf.st⟩,
-   ⟨hi.acct.locked, hi.acct.cc, hi.acct.pc, hi.acct.fee, h⟩, ⟨hi.ledg.live, hi.ledg.dead⟩⟩
+   ⟨hi.acct.locked, hi.acct.cc, hi.acct.pc, hi.acct.fee, h⟩, ⟨hi.ledg.live, hi.ledg.dead, hi.ledg.closed⟩⟩
 
 theorem inv_advance (s : State) (e : Int) (hi : Inv s) (he : s.epoch ≤ e) :
     Inv { s with epoch := e } := by
   refine ⟨⟨?_, hi.wf.nd, hi.wf.fresh, hi.wf.good, ?_⟩,
-    ⟨hi.acct.locked, hi.acct.cc, hi.acct.pc, hi.acct.fee, hi.acct.le⟩, ⟨hi.ledg.live, hi.ledg.dead⟩⟩
+    ⟨hi.acct.locked, hi.acct.cc, hi.acct.pc, hi.acct.fee, hi.acct.le⟩, ⟨hi.ledg.live, hi.ledg.dead, hi.ledg.closed⟩⟩
   · have := hi.wf.epoch0; show 0 ≤ e; omega
   · intro k st h
     obtain ⟨d, hd, hl⟩ := hi.wf.st k st h
@@ -254,15 +260,15 @@ theorem inv_withdraw (s : State) (c n : Nat) (a : Int) (env : PartyEnv) (so : Bo
 
 theorem inv_dealOps (s : State) (l : List (Int × Nat)) (hi : Inv s) : Inv { s with dealOps := l } :=
   ⟨⟨hi.wf.epoch0, hi.wf.nd, hi.wf.fresh, hi.wf.good, hi.wf.st⟩,
-   ⟨hi.acct.locked, hi.acct.cc, hi.acct.pc, hi.acct.fee, hi.acct.le⟩, ⟨hi.ledg.live, hi.ledg.dead⟩⟩
+   ⟨hi.acct.locked, hi.acct.cc, hi.acct.pc, hi.acct.fee, hi.acct.le⟩, ⟨hi.ledg.live, hi.ledg.dead, hi.ledg.closed⟩⟩
 
 theorem inv_lastCron (s : State) (e : Int) (hi : Inv s) : Inv { s with lastCron := e } :=
   ⟨⟨hi.wf.epoch0, hi.wf.nd, hi.wf.fresh, hi.wf.good, hi.wf.st⟩,
-   ⟨hi.acct.locked, hi.acct.cc, hi.acct.pc, hi.acct.fee, hi.acct.le⟩, ⟨hi.ledg.live, hi.ledg.dead⟩⟩
+   ⟨hi.acct.locked, hi.acct.cc, hi.acct.pc, hi.acct.fee, hi.acct.le⟩, ⟨hi.ledg.live, hi.ledg.dead, hi.ledg.closed⟩⟩
 
 theorem inv_pending (s : State) (l : List Proposal) (hi : Inv s) : Inv { s with pending := l } :=
   ⟨⟨hi.wf.epoch0, hi.wf.nd, hi.wf.fresh, hi.wf.good, hi.wf.st⟩,
-   ⟨hi.acct.locked, hi.acct.cc, hi.acct.pc, hi.acct.fee, hi.acct.le⟩, ⟨hi.ledg.live, hi.ledg.dead⟩⟩
+   ⟨hi.acct.locked, hi.acct.cc, hi.acct.pc, hi.acct.fee, hi.acct.le⟩, ⟨hi.ledg.live, hi.ledg.dead, hi.ledg.closed⟩⟩
 
 /-! ### publication -/
 
@@ -289,7 +295,8 @@ theorem inv_publishOne (s : State) (d : Proposal) (s' : State) (id : Nat) (hi : 
         rw [hnone] at hd'; simp at hd'
     have hgood : GoodDeal d := ⟨hv.dur, by have := hi.wf.epoch0; have := hv.start; omega, hv.price,
       hv.cc, hv.pc⟩
-    refine ⟨⟨?_, ?_, ?_, ?_, ?_⟩, ⟨?_, ?_, ?_, ?_, ?_⟩, ⟨?_, ?_⟩⟩
+    refine ⟨⟨?_, ?_, ?_, ?_, ?_⟩, ⟨?_, ?_, ?_, ?_, ?_⟩, ⟨?_, ?_,
+      by show ∀ id c', (id, c') ∈ s1.closed → ClosedOk c'; rw [c.closed]; exact hi.ledg.closed⟩⟩
     · show 0 ≤ s1.epoch; rw [c.epoch]; exact hi.wf.epoch0
     · show ND (aset s1.nextId d s1.proposals); rw [c.proposals]; exact ND_aset hi.wf.nd _ _
     · intro k d' hk
@@ -365,7 +372,7 @@ theorem inv_states_same_lu {s : State} (hi : Inv s) (sts : List (Nat × DealStat
     apply dsum_same
     intro k d hm
     exact hluto d _ _ (h2 k d (mem_alookup_ND hi.wf.nd hm))
-  refine ⟨⟨hi.wf.epoch0, hi.wf.nd, hi.wf.fresh, hi.wf.good, h1⟩, ⟨?_, ?_, ?_, ?_, hi.acct.le⟩, ⟨?_, hi.ledg.dead⟩⟩
+  refine ⟨⟨hi.wf.epoch0, hi.wf.nd, hi.wf.fresh, hi.wf.good, h1⟩, ⟨?_, ?_, ?_, ?_, hi.acct.le⟩, ⟨?_, hi.ledg.dead, hi.ledg.closed⟩⟩
   · intro p
     show bal s.locked p = dsum (oblH p) sts s.proposals
     rw [hh (oblH p) (by intro d o o' e; simp only [oblH, remFee, e])]; exact hi.acct.locked p
@@ -460,14 +467,19 @@ theorem inv_unmap (s : State) (caller : Nat) (sectors : List Nat) (hi : Inv s) :
 
 theorem inv_timeout {s s' : State} (hi : Inv s) {id : Nat} {d : Proposal}
     (hp : alookup id s.proposals = some d) (hst : alookup id s.states = none)
-    (h : timeoutDeal s id d = .ok s') : Inv s' := by
+    (hstart : d.startE ≤ s.epoch) (h : timeoutDeal s id d = .ok s') : Inv s' := by
   obtain ⟨_, n1, n2, n3, r, _, hpaid, m⟩ := timeoutDeal_ok h
-  apply inv_remove hi hp r.epoch r.nextId r.proposals r.states hpaid m
+  apply inv_remove hi hp r.epoch r.nextId r.proposals r.states hpaid m (c := timedOutRecord s id d)
   · intro p; rw [hst]; simp only [oblH, remFee_none, ind]; split <;> split <;> omega
   · rfl
   · rfl
   · rw [hst, remFee_none]
   · intro p; simp only [ind]; split <;> split <;> omega
+  · exact r.closed
+  · have hl := hi.ledg.live id d hp
+    rw [hst] at hl
+    simp [ClosedOk, timedOutRecord, hstart]
+    rw [hl]; simp [luTo]
 
 theorem wf_lu {s : State} (hi : Inv s) {id : Nat} {d : Proposal} {st : DealState}
     (hp : alookup id s.proposals = some d) (hst : alookup id s.states = some st) :
@@ -477,8 +489,8 @@ theorem wf_lu {s : State} (hi : Inv s) {id : Nat} {d : Proposal} {st : DealState
 
 theorem inv_complete {s s1 : State} (hi : Inv s) {id : Nat} {d : Proposal} {st : DealState} {pay : Int}
     (hp : alookup id s.proposals = some d) (hst : alookup id s.states = some st)
-    (h : processDealUpdate s id d st = .ok (s1, pay, true)) (c : Closed) :
-    Inv (removeDeal s1 id c) := by
+    (h : processDealUpdate s id d st = .ok (s1, pay, true)) :
+    Inv (removeDeal s1 id (completedRecord s1 id d)) := by
   obtain ⟨_, r, _, h4, h5, hpaid, m, hnn⟩ := processDealUpdate_ok h
   have g := hi.wf.good id d hp
   have hlu := wf_lu hi hp hst
@@ -491,10 +503,11 @@ theorem inv_complete {s s1 : State} (hi : Inv s) {id : Nat} {d : Proposal} {st :
   have hP := complete_arith d g st.lastUpdated s.epoch pay hlu hend hpayeq
   have hrem : remFee d (some st) = pos pay := by rw [hP]; rfl
   have hP0 := pos_nonneg pay
-  have m' : Moves s (removeDeal s1 id c) _ _ _ _ _ := ⟨m.escrow, m.locked, m.cc, m.fee, m.pc⟩
+  have m' : Moves s (removeDeal s1 id (completedRecord s1 id d)) _ _ _ _ _ :=
+    ⟨m.escrow, m.locked, m.cc, m.fee, m.pc⟩
   apply inv_remove hi hp (by exact r.epoch) (by exact r.nextId)
     (by show aerase id s1.proposals = _; rw [r.proposals])
-    (by show aerase id s1.states = _; rw [r.states]) _ m'
+    (by show aerase id s1.states = _; rw [r.states]) _ m' (c := completedRecord s1 id d)
   · intro p; rw [hst]; simp only [oblH, hrem, ind, if_true]; split <;> split <;> omega
   · simp
   · simp
@@ -502,6 +515,14 @@ theorem inv_complete {s s1 : State} (hi : Inv s) {id : Nat} {d : Proposal} {st :
   · intro p
     have := g.cc; have := g.pc
     simp only [ind, if_true]; split <;> split <;> omega
+  · show s1.closed ++ _ = _; rw [r.closed]
+  · have hl := hi.ledg.live id d hp
+    rw [hst] at hl
+    have hpd : bal s1.paid id = d.fee := by
+      rw [hpaid, hl, hP]
+      simp only [ind, if_true, luTo, Proposal.fee]
+      rw [← Int.mul_add]; congr 1; omega
+    simp [ClosedOk, completedRecord, hpd, r.epoch, hend]
   · intro j
     show bal (aerase id s1.paid) j = _
     by_cases hj : j = id
@@ -516,7 +537,7 @@ theorem inv_paystep {s s1 s' : State} (hi : Inv s) {id : Nat} {d : Proposal} {st
     (hsts : s'.states = aset id { st with lastUpdated := s.epoch } s1.states)
     (hpd : s'.paid = s1.paid) (hesc : s'.escrow = s1.escrow) (hlk : s'.locked = s1.locked)
     (hcc : s'.totalClientColl = s1.totalClientColl) (hfee : s'.totalClientFee = s1.totalClientFee)
-    (hpc : s'.totalProviderColl = s1.totalProviderColl) : Inv s' := by
+    (hpc : s'.totalProviderColl = s1.totalProviderColl) (hcl : s'.closed = s1.closed) : Inv s' := by
   obtain ⟨_, r, _, h4, h5, hpaid, m, _⟩ := processDealUpdate_ok h
   have g := hi.wf.good id d hp
   have hlu := wf_lu hi hp hst
@@ -535,8 +556,9 @@ theorem inv_paystep {s s1 s' : State} (hi : Inv s) {id : Nat} {d : Proposal} {st
   have hP := pay_arith d g st.lastUpdated s.epoch pay hlu hlt hpayeq
   apply inv_pay hi hp hst hlt (by rw [he, r.epoch]) (by rw [hn, r.nextId]) (by rw [hpr, r.proposals])
     (by rw [hsts, r.states]) hP (pos_nonneg pay) (by intro j; rw [hpd, hpaid])
-  exact ⟨by intro j; rw [hesc, m.escrow], by intro j; rw [hlk, m.locked]; simp,
-    by rw [hcc, m.cc]; simp, by rw [hfee, m.fee], by rw [hpc, m.pc]; simp⟩
+  · exact ⟨by intro j; rw [hesc, m.escrow], by intro j; rw [hlk, m.locked]; simp,
+      by rw [hcc, m.cc]; simp, by rw [hfee, m.fee], by rw [hpc, m.pc]; simp⟩
+  · rw [hcl, r.closed]
 
 theorem inv_settleOne (s : State) (id : Nat) (hi : Inv s) : Inv (settleOne s id).1 := by
   unfold settleOne
@@ -552,7 +574,7 @@ theorem inv_settleOne (s : State) (id : Nat) (hi : Inv s) : Inv (settleOne s id)
       · simp only [he, if_false]
         cases ht : timeoutDeal s id d with
         | error e => exact hi
-        | ok s' => exact inv_timeout hi hp hst ht
+        | ok s' => exact inv_timeout hi hp hst (by omega) ht
     | some st =>
       simp only
       cases hu : processDealUpdate s id d st with
@@ -560,9 +582,9 @@ theorem inv_settleOne (s : State) (id : Nat) (hi : Inv s) : Inv (settleOne s id)
       | ok r =>
         obtain ⟨s1, pay, completed⟩ := r
         cases completed with
-        | true => exact inv_complete hi hp hst hu _
+        | true => exact inv_complete hi hp hst hu
         | false =>
-          exact inv_paystep hi hp hst hu rfl rfl rfl rfl rfl rfl rfl rfl rfl rfl
+          exact inv_paystep hi hp hst hu rfl rfl rfl rfl rfl rfl rfl rfl rfl rfl rfl
 
 theorem inv_terminateOne (s : State) (c : Nat) (id : Nat) (s' : State) (a : Int) (hi : Inv s)
     (h : terminateOne s c s.epoch id = .ok (s', a)) : Inv s' := by
@@ -577,11 +599,36 @@ theorem inv_terminateOne (s : State) (c : Nat) (id : Nat) (s' : State) (a : Int)
       rw [hT]; rfl
     have hP0 := pos_nonneg (termPayment d st.lastUpdated s.epoch)
     apply inv_remove hi hp r.epoch r.nextId r.proposals r.states hpaid m
+      (c := terminatedRecord s id d st s.epoch)
     · intro p; rw [hst]; simp only [oblH, hrem, ind]; split <;> split <;> omega
     · rfl
     · rfl
     · rw [hst, hrem]
     · intro p; simp only [ind]; split <;> split <;> omega
+    · exact r.closed
+    · have hl := hi.ledg.live id d hp
+      rw [hst] at hl
+      have hnn : 0 ≤ termPayment d st.lastUpdated s.epoch := by
+        unfold termPayment; apply Int.mul_nonneg g.price; omega
+      have h0 := g.start0
+      have hpd : bal s.paid id + pos (termPayment d st.lastUpdated s.epoch)
+          = d.price * (max d.startE (min d.endE s.epoch) - d.startE) := by
+        rw [hl, pos_of_nonneg hnn]
+        simp only [luTo, termPayment]
+        rw [← Int.mul_add]; congr 1
+        rcases hlu with hh | ⟨a1, a2, a3⟩
+        · rw [hh]; omega
+        · omega
+      have hsum : bal s.paid id + pos (termPayment d st.lastUpdated s.epoch) + termRemaining d s.epoch
+          = d.fee := by
+        have : bal s.paid id + (pos (termPayment d st.lastUpdated s.epoch) + termRemaining d s.epoch)
+            = d.fee := by
+          rw [hT, hl]
+          simp only [luTo, Proposal.fee]
+          rw [← Int.mul_add]; congr 1; omega
+        omega
+      simp only [ClosedOk, terminatedRecord]
+      exact ⟨hpd, rfl, hsum, trivial, trivial, trivial, hse⟩
 
 theorem inv_cronOne (s : State) (id : Nat) (s' : State) (a : Int) (hi : Inv s)
     (h : cronOne s id = .ok (s', a)) : Inv s' := by
@@ -601,7 +648,7 @@ theorem inv_cronOne (s : State) (id : Nat) (s' : State) (a : Int) (hi : Inv s)
         | ok s2 =>
           simp only [ht] at h
           injection h with h; injection h with h1 _; subst h1
-          exact inv_timeout hi hp hst ht
+          exact inv_timeout hi hp hst (by omega) ht
     | some st =>
       simp only [hst] at h
       by_cases hlu : st.lastUpdated = -1
@@ -621,11 +668,11 @@ theorem inv_cronOne (s : State) (id : Nat) (s' : State) (a : Int) (hi : Inv s)
           | true =>
             simp only [if_true] at h
             injection h with h; injection h with h1 _; subst h1
-            exact inv_complete hi hp hst hu _
+            exact inv_complete hi hp hst hu
           | false =>
             simp only [Bool.false_eq_true, if_false] at h
             injection h with h; injection h with h1 _; subst h1
-            exact inv_paystep hi hp hst hu rfl rfl rfl rfl rfl rfl rfl rfl rfl rfl
+            exact inv_paystep hi hp hst hu rfl rfl rfl rfl rfl rfl rfl rfl rfl rfl rfl
 
 /-- the invariants are preserved by every atomic transition -/
 theorem inv_preserved : Preserved Inv where
@@ -642,7 +689,7 @@ theorem inv_preserved : Preserved Inv where
   cronDone := inv_lastCron
 
 theorem inv_init : Inv init := by
-  refine ⟨⟨by decide, trivial, ?_, ?_, ?_⟩, ⟨?_, rfl, rfl, rfl, ?_⟩, ⟨?_, ?_⟩⟩
+  refine ⟨⟨by decide, trivial, ?_, ?_, ?_⟩, ⟨?_, rfl, rfl, rfl, ?_⟩, ⟨?_, ?_, ?_⟩⟩
   · intro id d h; simp [init] at h
   · intro id d h; simp [init] at h
   · intro id st h; simp [init] at h
@@ -650,6 +697,7 @@ theorem inv_init : Inv init := by
   · intro p; exact Int.le_refl _
   · intro id d h; simp [init] at h
   · intro id _; rfl
+  · intro id c h; simp [init] at h
 
 /-- the invariants hold in every reachable state -/
 theorem inv_reachable (ops : List Op) : Inv (run init ops) := run_preserves inv_preserved ops init inv_init
